@@ -345,6 +345,64 @@ func runC13(r *Run) {
 		r.Fail("C13.6", "ValidateFinalizedProof", "", "function not found")
 	}
 
+	// ---------- C13.7 BLS: the order in which Finalize lays out the rest proofs is the order in which
+	// ValidateFinalizedProof walks them (each rest key id is a combination index over the keys not
+	// used by the entries before it, so a different order decodes to the wrong signers): both
+	// comparators order by signer count and, on a tie, by the message ascending
+	r.Rule("C13.7", "BLS finalize / validate agree on the order of the rest proofs: both comparators break ties in signer count by comparing the message (sign content) of the two elements, ascending, and return that comparison")
+	for _, cn := range []struct{ fn, what string }{{"gblsminsig.sortRestForFinalizing", "Finalize"}, {"gblsminsig.orderedRestSignatures", "ValidateFinalizedProof"}} {
+		fn := w.Fn(cn.fn)
+		if fn == nil {
+			r.Fail("C13.7", cn.fn, "", "function not found")
+			continue
+		}
+		ok, det := false, "no comparator closure handed to a sort"
+		w.A(fn).Instrs(func(in ssa.Instruction) {
+			c := callCommon(in)
+			if c == nil {
+				return
+			}
+			if _, n := calleeName(c); !(strings.HasPrefix(n, "slices.SortFunc") || strings.HasPrefix(n, "sort.Slice") || strings.HasPrefix(n, "slices.SortStableFunc")) {
+				return
+			}
+			for _, arg := range c.Args {
+				cf := funcValueOf(arg)
+				if cf == nil {
+					continue
+				}
+				ca := w.A(cf)
+				// a message comparison in (a, b) order whose result is returned
+				tie := ""
+				ca.Instrs(func(x ssa.Instruction) {
+					cc, isCall := x.(*ssa.Call)
+					if !isCall || len(cc.Call.Args) != 2 {
+						return
+					}
+					if _, n := calleeName(&cc.Call); n != "bytes.Compare" && n != "strings.Compare" && n != "cmp.Compare" {
+						return
+					}
+					l, rr := ca.sh.Of(cc.Call.Args[0]).String(), ca.sh.Of(cc.Call.Args[1]).String()
+					isMsg := func(s string) bool { return strings.HasSuffix(s, ".msg") || strings.HasSuffix(s, ".signContent") }
+					if strings.HasPrefix(l, "p0.") && strings.HasPrefix(rr, "p1.") && isMsg(l) && isMsg(rr) {
+						tie = ca.sh.Of(cc).String()
+					}
+				})
+				returned := false
+				for _, ret := range ca.Returns() {
+					if tie != "" && strings.Contains(ca.sh.Of(ret.Results[0]).String(), tie) {
+						returned = true
+					}
+				}
+				ok = tie != "" && returned
+				det = "tie-break comparison: " + tie
+				if tie == "" {
+					det = "the comparator never compares the two elements' messages: equal signer counts are left in input order"
+				}
+			}
+		})
+		r.Check(ok, "C13.7", cn.fn+"("+cn.what+" rest order)", w.Pos(fn.Pos()), det)
+	}
+
 	// ---------- C13.5 finalizer
 	r.Rule("C13.5", "CommitProofFinalizer.Finalize tests AllValidSignatures and IncreasedSignatures of every merge it performs")
 	if fn := w.Fn("tsi.CommitProofFinalizer.Finalize"); fn == nil {
@@ -855,4 +913,25 @@ func allReturnsAfterEdge(ed Edge, idx int, want string) bool {
 	}
 	walk(ed.From, ed.From.Succs[ed.Succ], pathFacts{})
 	return ok && nret > 0
+}
+
+// funcValueOf: the function a func-typed argument denotes (a closure, or a plain function literal
+// without captures), through type changes.
+func funcValueOf(v ssa.Value) *ssa.Function {
+	for {
+		switch x := v.(type) {
+		case *ssa.MakeClosure:
+			f, _ := x.Fn.(*ssa.Function)
+			return f
+		case *ssa.Function:
+			return x
+		case *ssa.ChangeType:
+			v = x.X
+			continue
+		case *ssa.MakeInterface:
+			v = x.X
+			continue
+		}
+		return nil
+	}
 }
